@@ -320,7 +320,28 @@ def every_response_is_looked_up(facts, R, rule):
                 if any(f["expr"][0] == "bin" and f["expr"][1] in ("Ne", "Eq") and render(f["expr"][2]).endswith("header.notify") and const_val(f["expr"][3]) == 0
                        and ((f["expr"][1] == "Ne" and f["val"] is True) or (f["expr"][1] == "Eq" and f["val"] is False)) for f in fs):
                     notif.append((x, 0))
-        entries = [(x, 0) for x in region if any(q not in region for q in lb.preds().get(x, []))]
+        live_ = lb.live_blocks()
+        entries = [(x, 0) for x in region if any(q not in region and q in live_ for q in lb.preds().get(x, []))]
+        if not entries and getattr(lb, "changed", False):
+            # the decoded response sits in a variable several paths assign (a helper folded two matches into one Result): start where
+            # the loop first looks into the response's header instead - the notify test or the id read - wherever those reads are
+            from analysis.mir import rv_operands
+            hdr_reads = []
+            for x in sorted(live_):
+                for j, st_ in enumerate(lb.blocks[x]["stmts"]):
+                    if st_["k"] != "assign":
+                        continue
+                    rv_ = st_["rv"]
+                    pls_ = [rv_[k_] for k_ in ("ref", "discr") if k_ in rv_] + [p_ for p_ in (op_place(o_) for o_ in rv_operands(rv_)) if p_]
+                    for p_ in pls_:
+                        flds_ = [e_ for e_ in p_["p"] if isinstance(e_, dict) and "f" in e_]
+                        if len(flds_) >= 2 and flds_[-2].get("a") == "message::Message" and flds_[-2]["f"] == "header":
+                            hdr_reads.append((x, j))
+            firsts = [h for h in hdr_reads if not any(o != h and lb.dominates(o[0], h[0]) and (o[0] != h[0] or o[1] < h[1]) for o in hdr_reads)]
+            entries = firsts
+            need = need or [("header-reads", "")]
+            notif = [(x, 0) for x in sorted(live_) if any(f["expr"][0] == "bin" and f["expr"][1] in ("Ne", "Eq") and render(f["expr"][2]).endswith("header.notify") and const_val(f["expr"][3]) == 0
+                     and ((f["expr"][1] == "Ne" and f["val"] is True) or (f["expr"][1] == "Eq" and f["val"] is False)) for f in facts_at(lb, ls, facts, x))]
         if not need or not entries or not reads_:
             R.bad(rule, lb.path, "every response read is looked up in the pending table",
                   "cannot locate where the response loop has a decoded response in hand (key %s)" % render(key)[:120], rt.get("span"))
